@@ -255,9 +255,13 @@ inductive BStage where
   | joinside (f1 : KeyFn) (k1 : Int) (f2 : KeyFn) (k2 : Int)
   /-- merge with the side input of the loop -/
   | mergeside
-  /-- nested `iterate`: only its state continues the enclosing body (the items output of `iterate`
-      leaves all enclosing loops: iterate.rs creates its output block with an empty iteration context) -/
+  /-- nested `iterate` whose STATE stream continues the enclosing body (items drained) -/
   | iterate (l : LoopSpec)
+  /-- nested `iterate` whose ITEMS stream continues the enclosing body: the elements of the last inner
+      round, per outer round (state drained; needs /repo ≥ 9fb958f, finding F16) -/
+  | iteritems (l : LoopSpec)
+  /-- nested `iterate`: items merged with the in-loop state stream -/
+  | iterboth (l : LoopSpec)
 inductive LoopSpec where
   | mk (iters : Nat) (init : Int) (agg : Agg) (cp : PredFn) (ck : Int) (body : List BStage)
 end
@@ -302,6 +306,13 @@ def evalStage (side : List V) : Nat → BStage → Int → List V → List V
   | fuel + 1, .iterate (.mk iters init agg cp ck body), _, xs =>
     [V.int (loopRun true (fun st ys => body.foldl (fun acc s => evalStage side fuel s st acc) ys)
       agg cp ck (max iters 1) init xs).1]
+  | fuel + 1, .iteritems (.mk iters init agg cp ck body), _, xs =>
+    (loopRun true (fun st ys => body.foldl (fun acc s => evalStage side fuel s st acc) ys)
+      agg cp ck (max iters 1) init xs).2
+  | fuel + 1, .iterboth (.mk iters init agg cp ck body), _, xs =>
+    let r := loopRun true (fun st ys => body.foldl (fun acc s => evalStage side fuel s st acc) ys)
+      agg cp ck (max iters 1) init xs
+    r.2 ++ [V.int r.1]
 
 def evalBody (side : List V) (fuel : Nat) (body : List BStage) (st : Int) (xs : List V) : List V :=
   body.foldl (fun acc s => evalStage side fuel s st acc) xs
@@ -586,6 +597,13 @@ def parStage (n : Nat) (o : Orc) (id : Nat) (side : D) : Nat → BStage → Int 
   | fuel + 1, .iterate (.mk iters init agg cp ck body), _, d =>
     [[V.int (parLoopRun true (fun st x => body.foldl (fun acc s => parStage n o id side fuel s st acc) x)
       agg cp ck (o.merge id) (max iters 1) init d).1]]
+  | fuel + 1, .iteritems (.mk iters init agg cp ck body), _, d =>
+    (parLoopRun true (fun st x => body.foldl (fun acc s => parStage n o id side fuel s st acc) x)
+      agg cp ck (o.merge id) (max iters 1) init d).2
+  | fuel + 1, .iterboth (.mk iters init agg cp ck body), _, d =>
+    let r := parLoopRun true (fun st x => body.foldl (fun acc s => parStage n o id side fuel s st acc) x)
+      agg cp ck (o.merge id) (max iters 1) init d
+    r.2 ++ [[V.int r.1]]
 
 def parBody (n : Nat) (o : Orc) (id : Nat) (side : D) (fuel : Nat) (body : List BStage) (st : Int) (d : D) : D :=
   body.foldl (fun acc s => parStage n o id side fuel s st acc) d
